@@ -151,6 +151,39 @@ def seed_checks(rep, tier, seed):
                     rep.violation("seed", "seed:stochastic-ignores-seed", {"kind": kind, "script": sc, "seeds": [sa, sb]})
 
 
+def boundary_seed_checks(rep):
+    """Every seed of the documented range is a seed: it is stored as given whichever way the script is built
+    (keyword, constructor, dictionary) and independent builds of the same description give the same trajectory."""
+    from strengths import RDScript, rdscript_from_dict, rdscript_to_dict, simulate, simulate_script
+    lib = build.load("plain")
+    for kind in ("gillespie", "tauleap", "euler"):
+        sc = (SCRIPTS_G if kind == "gillespie" else SCRIPTS)[0]
+        for space in ("grid", "graph"):
+            system = engine_rec.get_system(sc["system"], space)
+            kw = dict(time_step=sc["dt"], sampling_policy=sc["policy"])
+            for sd in (0, 1, 2 ** 31 - 1, 2 ** 31, 2 ** 32 - 1):
+                outs = []
+                for rep_i in range(2):
+                    o = simulate(system, sc["ts"], engine=build.make_engine(kind, lib=lib), rng_seed=sd, **kw)
+                    outs.append(("simulate", o))
+                    s2 = RDScript(system=system, t_sample=sc["ts"], rng_seed=sd, **kw)
+                    outs.append(("constructor", simulate_script(s2, build.make_engine(kind, lib=lib))))
+                    d = rdscript_to_dict(s2)
+                    d["rng_seed"] = sd
+                    s3 = rdscript_from_dict(d)
+                    outs.append(("dictionary", simulate_script(s3, build.make_engine(kind, lib=lib))))
+                rep.case(["boundary-seed", kind, space, sd])
+                for how, o in outs:
+                    if int(o.script.rng_seed) != sd:
+                        rep.violation("seed", "seed:not-stored", {"kind": kind, "seed": sd, "built-by": how, "stored": int(o.script.rng_seed)})
+                        break
+                ref = outs[0][1]
+                for how, o in outs[1:]:
+                    if bits(o.data.value) != bits(ref.data.value) or bits(o.t.value) != bits(ref.t.value):
+                        rep.violation("seed", "seed:same-seed-differs", {"kind": kind, "space": space, "seed": sd, "built-by": how})
+                        break
+
+
 def run(tier, selftest=False, only=None):
     rep = Report(PROP, tier)
     rep.rule = ("model: all partitions of the iteration sequence into iterate / iterate_n(k) / run slices interleaved with "
@@ -174,6 +207,7 @@ def run(tier, selftest=False, only=None):
         rep.extra["histories"] = len(hs)
     if sel("seeds"):
         seed_checks(rep, tier, seed)
+        boundary_seed_checks(rep)
     if selftest:
         from . import c10
         c10.self_test(rep)
